@@ -28,9 +28,29 @@ DIRECTED = [S.stream_first_statement_names, S.stream_first_statement_names, S.st
             S.stream_idle_middle, S.stream_shared_nick_forward, S.stream_once_cluster]
 
 
+IMPORT_STATS = {}
+
+
+def repo_recipes(tier):
+    """recipes people wrote: every recipe file / documentation snippet of the repository that lies inside the
+    SF-core fragment (harness/recipe_import.py, fail-closed), 1-3 iterations each"""
+    import os
+    from . import recipe_import as RI
+    root = os.environ.get("SFV_REPO", "/repo")
+    ok, why = RI.import_all(root)
+    IMPORT_STATS.update({"imported": len(ok), "outside_fragment": why, "files": [p for p, _ in ok]})
+    cases = []
+    for path, r in ok:
+        if S.uses_random(r):
+            r["raw"], r["bias"] = [7, 1, 12, 5, 3, 8, 2, 11, 4, 9], "mix"
+        for reps in ((1, 2) if tier == "quick" else (1, 2, 3)):
+            cases.append({"recipe": r, "reps": reps, "features": ["repo_recipe"], "source": path})
+    return cases
+
+
 def generate(rng, tier):
     n = 450 if tier == "quick" else 12000
-    cases = []
+    cases = repo_recipes(tier)
     for _ in range(n):
         if rng.random() < 0.12:      # directed streams (DESIGN.md 11.4)
             r, feats = rng.choice(DIRECTED)(rng)
@@ -76,7 +96,10 @@ def stats(cases, obss):
     return {"features": dict(feats), "outcomes": dict(outcomes),
             "rows_per_recipe_bucket": {str(k): v for k, v in sorted(rows.items())},
             "versions": dict(Counter(c["recipe"]["version"] for c in cases)),
-            "reps": dict(Counter(c["reps"] for c in cases))}
+            "reps": dict(Counter(c["reps"] for c in cases)),
+            "repo_recipes": dict(IMPORT_STATS,
+                                 outcomes=dict(Counter(("ok" if "ok" in o else o.get("err", "?"))
+                                                       for c, o in zip(cases, obss) if "repo_recipe" in c.get("features", []))))}
 
 
 def shrink(case):
